@@ -7,6 +7,7 @@ import (
 	"io"
 	"sync/atomic"
 	"testing"
+	"time"
 
 	lz4 "github.com/pierrec/lz4/v4"
 	"pgregory.net/rapid"
@@ -39,7 +40,21 @@ func (r *c08Run) writer(c c08WCase) {
 	class := func(s string) { r.classes = append(r.classes, s) }
 	// the handler is called from the worker goroutines: it must be safe for concurrent use (cmd/lz4c uses atomics too)
 	var calls, bytesSeen atomic.Int64
-	handler := func(n int) { calls.Add(1); bytesSeen.Add(int64(n)) }
+	handler := func(n int) {
+		lz4YieldFromSink() // (a slow callback: the schedule's delay for site 20 applies before the call is counted)
+		calls.Add(1)
+		bytesSeen.Add(int64(n))
+	}
+	// once Close has returned nothing of the pipeline may be left: no callback may arrive later (virtual time passes in between)
+	quietAfterClose := func(where string) bool {
+		snap := calls.Load()
+		time.Sleep(time.Second)
+		if late := calls.Load() - snap; late != 0 {
+			r.fail = stat.Failf("C08/writer/on-block-done-callback-after-close-returned", "%s: %d callback(s) arrived after Close had returned: goroutines of the pipeline were still running", where, late)
+			return false
+		}
+		return true
+	}
 	mkSink := func() *inst.Sink {
 		return &inst.Sink{Cap: 256 << 20, FailAt: c.FailAt, Sticky: c.Sticky, Hook: func() { lz4YieldFromSink() }}
 	}
@@ -53,9 +68,13 @@ func (r *c08Run) writer(c c08WCase) {
 	var epoch []wOp
 	open := false
 	failed := false
+	srcFailed := false
 	for i, op := range c.Ops {
 		r.cur, r.curDesc = i, op.Op
 		where := fmt.Sprintf("op %d %s (options %s, sink fails at call %d)", i, op, c.Opts, c.FailAt)
+		if srcFailed && op.Op != "close" && op.Op != "reset" {
+			continue // after a failed ReadFrom only Close and Reset are meaningful
+		}
 		switch op.Op {
 		case "write":
 			data := opData(op.N, op.Seed)
@@ -73,6 +92,29 @@ func (r *c08Run) writer(c c08WCase) {
 			open = true
 		case "readfrom":
 			data := opData(op.N, op.Seed)
+			if op.Fail > 0 {
+				// the source fails part-way: blocks are in flight when ReadFrom gives up; from here on only Close / Reset follow
+				fsrc := &inst.Source{Data: data, FailAt: op.Fail, Chunks: []int{65536}}
+				_, err := w.ReadFrom(fsrc)
+				class("error-path/readfrom-source-failure")
+				if fsrc.Failed == 0 && c.FailAt > 0 && err != nil {
+					// the sink failed first (header or an earlier block): the source was not read that far
+					failed, srcFailed, open = true, true, true
+					break
+				}
+				if fsrc.Failed == 0 {
+					r.fail = stat.Failf("harness-problem", "%s: the source was never asked for its failing call %d", where, op.Fail)
+					return
+				}
+				if err == nil {
+					r.fail = stat.Failf("C08/writer/readfrom-hides-source-failure", "%s: (nil)", where)
+					return
+				}
+				failed = true
+				srcFailed = true
+				open = true
+				break
+			}
 			n, err := w.ReadFrom(bytes.NewReader(data))
 			if err != nil || n != int64(len(data)) {
 				if c.FailAt > 0 {
@@ -99,6 +141,14 @@ func (r *c08Run) writer(c c08WCase) {
 			class("op/flush-mid-stream")
 		case "close":
 			err := w.Close()
+			if !quietAfterClose(where) {
+				return
+			}
+			if srcFailed {
+				// (the Writer is in its error state: Close reports it; nothing about the output is judged)
+				open = false
+				break
+			}
 			if c.FailAt > 0 && len(sink.FailedAt) > 0 {
 				class("error-path/sink-failure")
 				if err == nil && !failed {
@@ -135,11 +185,14 @@ func (r *c08Run) writer(c c08WCase) {
 			}
 			sink = mkSink()
 			w.Reset(sink)
-			accepted, epoch, open, failed = nil, nil, false, false
+			accepted, epoch, open, failed, srcFailed = nil, nil, false, false, false
 		}
 	}
 	r.cur, r.curDesc = len(c.Ops), "epilogue-close"
 	_ = w.Close()
+	if !quietAfterClose("epilogue Close") {
+		return
+	}
 	if calls.Load() == 0 && r.blocks > 0 {
 		r.fail = stat.Failf("C08/writer/on-block-done-never-called", "%d blocks written, handler calls %d", r.blocks, calls.Load())
 	}
@@ -216,10 +269,14 @@ func drawC08W(t *rapid.T) c08WCase {
 			op.N = rapid.SampledFrom([]int{1, 100, 65536, 65537, 131072, 200000, 400000, 786432}).Draw(t, "n")
 			op.Seed = rapid.Uint64Range(0, 1000).Draw(t, "seed")
 			open = true
-		case k == 10 && !open:
+		case (k == 10 || k == 11) && !open:
 			op.Op = "readfrom"
 			op.N = rapid.SampledFrom([]int{0, 100, 65536, 200000, 400000}).Draw(t, "n")
 			op.Seed = rapid.Uint64Range(0, 1000).Draw(t, "seed")
+			if rapid.IntRange(0, 2).Draw(t, "srcfail?") == 0 {
+				op.N = rapid.SampledFrom([]int{200000, 400000, 786432}).Draw(t, "nfail")
+				op.Fail = rapid.IntRange(2, 3).Draw(t, "srcfail") // (the input takes at least 4 Read calls of <= 64 KiB)
+			}
 			open = true
 		case k <= 13:
 			op.Op = "flush"
@@ -465,7 +522,7 @@ func TestC08(t *testing.T) {
 	bubbleT = t
 	rec := stat.For("C08")
 	rec.SetRule(c08Rule)
-	rec.Require("writer/nontrivial", "reader/nontrivial", "writer/op/flush-mid-stream", "writer/op/reset-after-close", "writer/epoch/equal-to-sequential", "writer/error-path/sink-failure", "reader/error-path/corrupt-frame", "reader/error-path/injected-io-failure", "reader/stream/valid-read-to-the-end")
+	rec.Require("writer/nontrivial", "writer/error-path/readfrom-source-failure", "reader/nontrivial", "writer/op/flush-mid-stream", "writer/op/reset-after-close", "writer/epoch/equal-to-sequential", "writer/error-path/sink-failure", "reader/error-path/corrupt-frame", "reader/error-path/injected-io-failure", "reader/stream/valid-read-to-the-end")
 	scale := envInt("VERIF_C08_SCALE", 100)
 	checkProp(t, "C08", "C08/writer", pick(1200, 30000)*scale/100, drawC08W, runC08W)
 	checkProp(t, "C08", "C08/reader", pick(1500, 40000)*scale/100, drawC08R, runC08R)
